@@ -26,6 +26,21 @@ def model_check(c, tier):
     if not d.deadlock:
         raise ToolError("PagerHeldAcrossLatch should deadlock")
     c.cov["design_mutations_refuted"] = ["PagerHeldAcrossLatch (deadlock found)"]
+    model_check_pool(c, tier)
+
+
+def model_check_pool(c, tier=None):
+    """Pool.tla: FIFO job queue, workers, callers blocking on their channel, jobs that may panic; under fairness every call ends and
+    no worker is lost; a worker that dies on a panic (the repaired defect b131e39) must violate EveryCallEnds."""
+    r = run_tlc("Pool", os.path.join(vlib.SPEC, "MC_Pool.cfg"), workers=4)
+    if not r.ok:
+        raise ToolError("Pool.tla fails: %s" % r.violated)
+    c.add("states", r.distinct)
+    c.add("transitions", r.generated)
+    d = run_tlc("Pool", os.path.join(vlib.SPEC, "MC_Pool_dev.cfg"), workers=2)
+    if not d.violated:
+        raise ToolError("WorkerDiesOnPanic should violate EveryCallEnds")
+    c.cov.setdefault("design_mutations_refuted", []).append("WorkerDiesOnPanic (EveryCallEnds violated)")
 
 
 def conc_leg(c, wd, tier, seed, prop=PROP, n=None):
